@@ -292,6 +292,12 @@ fn main() {
         sink.merge(sx);
     }
     {
+        // the known extensions under foreign outer headers (DER, length prefixes, record / handshake headers)
+        let k = wrapped(&cat::known_extensions(), 1);
+        let sx = par_run(run.threads, k.len(), |i, sink| check_single(&k[i].buf, sink));
+        sink.merge(sx);
+    }
+    {
         let k = cat::text_extensions();
         let sx = par_run(run.threads, k.len(), |i, sink| check_single(&k[i].buf, sink));
         sink.merge(sx);
